@@ -7,7 +7,7 @@ cd /repo || exit 3
 if ! git -C /repo diff --quiet; then echo "repo dirty, refusing"; exit 3; fi
 git -C /repo apply "$PATCH" || { echo "patch does not apply"; exit 3; }
 cd /verif
-if [ "${ALL:-0}" = "1" ]; then PROPS="C01 C02 C03 C04 C05 C06 C07 C08 C10 C11 C12 C13 C15 C17 C18 C19 C20 C21 C22 C23 C24 C25 C26 C27"; else PROPS=$P; fi
+if [ "${ALL:-0}" = "1" ]; then PROPS="C01 C02 C03 C04 C05 C06 C07 C08 C09 C10 C11 C12 C13 C15 C16 C17 C18 C19 C20 C21 C22 C23 C24 C25 C26 C27"; else PROPS=$P; fi
 for q in $PROPS; do
   out=$(/venv/bin/python check.py --property $q --tier quick --no-evidence 2>&1); rc=$?
   echo "== $q exit=$rc"; echo "$out" | grep -E "^(FAIL|ANALYSIS|     )" | cut -c1-260 | head -12
